@@ -1689,6 +1689,141 @@ def run_silent(job):
     return res
 
 
+# ------------------------------------------------------------------------------------------ exit signals, real process
+def run_signals(job):
+    """`python -m radicale` as a child process (nothing substituted).  job: {"inflight": bool, "signals": ["TERM", "HUP", ...],
+    "gap": seconds between the signals (0 = back to back)}.
+    With a request in flight (PUT whose body trickles: head + half of the body sent) the exit signals are delivered; then:
+    after the first one the server says "Stopping Radicale" and a client that connects afterwards is never served; the
+    process must still be there while the request is in flight, whatever further signals arrive; when the rest of the body
+    arrives the request is answered completely; the process then exits with status 0."""
+    import re
+    import signal as sig
+    import subprocess
+    fail, steps = [], []
+    folder = tempfile.mkdtemp(prefix="rv-c20s-")
+    env = dict(os.environ)
+    env.pop("RADICALE_CONFIG", None)
+    cmd = [sys.executable, "-m", "radicale", "--config", "", "--server-hosts", "127.0.0.1:0",
+           "--storage-filesystem-folder", os.path.join(folder, "coll"), "--auth-type", "none",
+           "--logging-level", "info", "--server-timeout", "60", "--server-max-connections", "4"]
+    out = dict(job=job, inconclusive=None)
+    proc = None
+    lines = []
+    try:
+        proc = subprocess.Popen(cmd, env=env, stdout=subprocess.DEVNULL, stderr=subprocess.PIPE, cwd=folder)
+
+        def reader():
+            for raw in proc.stderr:
+                lines.append((time.monotonic(), raw.decode("utf-8", "replace")))
+        threading.Thread(target=reader, daemon=True).start()
+
+        def wait_line(pat, deadline):
+            end = time.monotonic() + deadline
+            while time.monotonic() < end:
+                for (_, l) in list(lines):
+                    m = re.search(pat, l)
+                    if m:
+                        return m
+                if proc.poll() is not None and not any(re.search(pat, l) for _, l in lines):
+                    time.sleep(0.05)
+                    if not any(re.search(pat, l) for _, l in lines):
+                        return None
+                time.sleep(0.01)
+            return None
+        m = wait_line(r"Listening on '127\.0\.0\.1:(\d+)'", 60)
+        if not m or not wait_line(r"Radicale server ready", 60):
+            out["inconclusive"] = "server process did not start: " + "".join(l for _, l in lines)[-400:]
+            return out
+        port = int(m.group(1))
+        body = (EVENT % b"sig")
+        a = None
+        if job["inflight"]:
+            a = socket.create_connection(("127.0.0.1", port), timeout=DEADLINE)
+            a.sendall(("PUT /u/e.ics HTTP/1.1\r\nHost: x\r\nAuthorization: Basic dTpw\r\nContent-Type: text/calendar\r\n"
+                       "Content-Length: %d\r\n\r\n" % len(body)).encode() + body[:len(body) // 2])
+            time.sleep(0.3)          # the worker reads the head and blocks on the rest of the body
+        late = None
+        for i, name in enumerate(job["signals"]):
+            if proc.poll() is not None:
+                break
+            try:
+                proc.send_signal(getattr(sig, "SIG" + name))
+            except ProcessLookupError:
+                break
+            steps.append(dict(signal=name))
+            if i == 0 and job["inflight"]:
+                if not wait_line(r"Stopping Radicale", DEADLINE):
+                    fail.append(dict(what="signals: the first exit signal (SIG%s) is not noticed by the accept loop" % name))
+                    break
+                # a client that arrives after the shutdown was noticed must never be served
+                try:
+                    late = socket.create_connection(("127.0.0.1", port), timeout=5)
+                    late.sendall(b"GET / HTTP/1.1\r\nHost: x\r\n\r\n")
+                except OSError:
+                    late = None
+            if job.get("gap"):
+                time.sleep(job["gap"])
+        if job["inflight"]:
+            time.sleep(0.3)          # quiet period: a process that gave up the request in flight is gone by now
+            gone = proc.poll()
+            if gone is not None:
+                fail.append(dict(what="signals: after the exit signals %s the process exited (status %s) while a request was in "
+                                      "flight" % ("+".join("SIG" + n for n in job["signals"]), gone)))
+            try:
+                a.sendall(body[len(body) // 2:])
+            except OSError as e:
+                steps.append(dict(send_rest_failed=repr(e)))
+            a.settimeout(DEADLINE)
+            data = b""
+            try:
+                while True:
+                    chunk = a.recv(65536)
+                    if not chunk:
+                        break
+                    data += chunk
+            except OSError as e:
+                steps.append(dict(recv_failed=repr(e)))
+            st, complete = parse_response(data)
+            steps.append(dict(inflight_answer=st, complete=complete))
+            if st != 201 or not complete:
+                fail.append(dict(what="signals: the request in flight during %s did not get its complete response (status %s)"
+                                      % ("+".join("SIG" + n for n in job["signals"]), st), data=data[:120].decode("latin-1")))
+        try:
+            code = proc.wait(DEADLINE + 10)
+        except subprocess.TimeoutExpired:
+            code = None
+            fail.append(dict(what="signals: the process does not exit after %s" % "+".join("SIG" + n for n in job["signals"])))
+        steps.append(dict(exit_status=code))
+        if code not in (0, None):
+            fail.append(dict(what="signals: exit status %s after %s (expected 0: clean shutdown)" % (
+                code, "+".join("SIG" + n for n in job["signals"])), stderr="".join(l for _, l in lines)[-300:]))
+        if late is not None:
+            late.settimeout(5)
+            ldata = b""
+            try:
+                while True:
+                    chunk = late.recv(65536)
+                    if not chunk:
+                        break
+                    ldata += chunk
+            except OSError:
+                pass
+            steps.append(dict(late_client_bytes=len(ldata)))
+            if ldata:
+                fail.append(dict(what="signals: a client that connected after the shutdown was noticed has been served",
+                                 data=ldata[:80].decode("latin-1")))
+    except Exception:
+        out["inconclusive"] = "driver error: " + traceback.format_exc()
+        out["driver_error"] = True
+    finally:
+        if proc is not None and proc.poll() is None:
+            proc.kill()
+        shutil.rmtree(folder, ignore_errors=True)
+    out.update(fail=fail, steps=steps)
+    return out
+
+
 def main():
     jobs = json.load(open(sys.argv[1]))
     out = []
@@ -1702,6 +1837,8 @@ def main():
                 out.append(run_realgate(job))
             elif job["kind"] == "silent":
                 out.append(run_silent(job))
+            elif job["kind"] == "signals":
+                out.append(run_signals(job))
             else:
                 out.append(run_gate(job))
         except BaseException:
